@@ -20,6 +20,8 @@ import (
 	"net/http/httptest"
 	"os"
 	"path/filepath"
+	"reflect"
+	"runtime"
 	"sort"
 	"strings"
 	"sync"
@@ -263,6 +265,7 @@ type c19Env struct {
 	cleanup  func()
 	fsBefore string
 	opts     engine.Options
+	wgUsable bool // the engine's WaitGroup counter can be read (see c19WGCounter)
 }
 
 func c19EngineOpts(dir string) engine.Options {
@@ -289,6 +292,7 @@ func c19NewEnv(seed int64) (*c19Env, error) {
 		return nil, fmt.Errorf("engine.Open: %v", err)
 	}
 	env.eng = eng
+	env.wgUsable = c19WGCounter(eng) == 1
 	if err := c19Fixture(eng); err != nil {
 		_ = eng.Close()
 		cleanup()
@@ -499,9 +503,47 @@ func c19CanonJSON(b []byte) string {
 	return string(out)
 }
 
+// c19WGCounter reads the counter of the engine's internal WaitGroup (the
+// VDelete cascade and the self-repair unlink run under it, next to the one
+// permanent background loop). Reading it is only a settle condition of the
+// harness: if the layout is not what is expected (validated right after Open:
+// the counter must be exactly 1) the value -1 disables the mechanism.
+func c19WGCounter(e *engine.Engine) (n int) {
+	defer func() {
+		if recover() != nil {
+			n = -1
+		}
+	}()
+	wg := reflect.ValueOf(e).Elem().FieldByName("wg")
+	st := wg.FieldByName("state")
+	if !st.IsValid() {
+		return -1
+	}
+	v := st.FieldByName("v")
+	if !v.IsValid() || v.Kind() != reflect.Uint64 {
+		return -1
+	}
+	return int(v.Uint() >> 32)
+}
+
+// waitEngineIdle waits until the engine's tracked background work is done.
+func (env *c19Env) waitEngineIdle(deadline time.Duration) bool {
+	if !env.wgUsable {
+		return true
+	}
+	end := time.Now().Add(deadline)
+	for c19WGCounter(env.eng) != 1 {
+		if time.Now().After(end) {
+			return false
+		}
+		time.Sleep(100 * time.Microsecond)
+	}
+	return true
+}
+
 // settledDigest waits for async tasks and then for two consecutive equal digests.
 func (env *c19Env) settledDigest() (string, bool) {
-	if !env.waitTasks(15 * time.Second) {
+	if !env.waitTasks(15*time.Second) || !env.waitEngineIdle(15*time.Second) {
 		return "tasks still running", true
 	}
 	d1, broken := c19Digest(env.eng)
@@ -622,4 +664,29 @@ func (env *c19Env) serve(method, target string, body io.Reader, ctxTimeout, hang
 // c19OneJSON reports whether b is exactly one JSON value (surrounding whitespace allowed).
 func c19OneJSON(b []byte) bool {
 	return json.Valid(bytes.TrimSpace(b))
+}
+
+// c19WaitRefineIdle waits until no goroutine started by VImportCommit is
+// still working: such a goroutine is either gone or parked in the 10 s sleep
+// that follows its single refine pass on a small index.
+func c19WaitRefineIdle(deadline time.Duration) bool {
+	end := time.Now().Add(deadline)
+	buf := make([]byte, 4<<20)
+	for {
+		n := runtime.Stack(buf, true)
+		busy := false
+		for _, g := range bytes.Split(buf[:n], []byte("\n\n")) {
+			if (bytes.Contains(g, []byte("RunTurboRefine")) || bytes.Contains(g, []byte("VImportCommit.func1"))) && !bytes.Contains(g, []byte("time.Sleep")) {
+				busy = true
+				break
+			}
+		}
+		if !busy {
+			return true
+		}
+		if time.Now().After(end) {
+			return false
+		}
+		time.Sleep(300 * time.Microsecond)
+	}
 }
